@@ -1337,10 +1337,84 @@ func extractC03(c *ctxT) {
 	}
 	sort.Slice(claims, func(i, j int) bool { return claims[i].Name < claims[j].Name })
 
+	var csb strings.Builder
+	// chain table
+	type chainT struct{ name, kind, where string }
+	var chains []chainT
+	keyFiles, _ := filepath.Glob(filepath.Join(c.repo, "x", "*", "types"))
+	sort.Strings(keyFiles)
+	for _, dir := range keyFiles {
+		rel, _ := filepath.Rel(c.repo, dir)
+		p := c.pkg(rel)
+		consts := map[string]string{}
+		for _, fn := range sortedKeys(p) {
+			for _, d := range p[fn].Decls {
+				gd, ok := d.(*ast.GenDecl)
+				if !ok || gd.Tok != token.CONST {
+					continue
+				}
+				for _, sp := range gd.Specs {
+					vs := sp.(*ast.ValueSpec)
+					for i, n := range vs.Names {
+						if i < len(vs.Values) {
+							if bl, ok := vs.Values[i].(*ast.BasicLit); ok && bl.Kind == token.STRING {
+								consts[n.Name], _ = strconv.Unquote(bl.Value)
+							}
+						}
+					}
+				}
+			}
+		}
+		for _, fn := range sortedKeys(p) {
+			ast.Inspect(p[fn], func(n ast.Node) bool {
+				ce, ok := n.(*ast.CallExpr)
+				if !ok || len(ce.Args) != 2 {
+					return true
+				}
+				f := c.src(ce.Fun)
+				if f != "crosschaintypes.RegisterExternalAddress" && f != "RegisterExternalAddress" {
+					return true
+				}
+				name := c.src(ce.Args[0])
+				if v, ok := consts[name]; ok {
+					name = v
+				} else if bl, ok := ce.Args[0].(*ast.BasicLit); ok {
+					name, _ = strconv.Unquote(bl.Value)
+				} else {
+					return true // the declaration of RegisterExternalAddress itself, or a non-constant name
+				}
+				kind := "other"
+				switch c.src(ce.Args[1]) {
+				case "crosschaintypes.EthereumAddress{}", "EthereumAddress{}":
+					kind = "eth"
+				case "tronAddress{}":
+					kind = "tron"
+				}
+				chains = append(chains, chainT{name, kind, c.pos(ce)})
+				return true
+			})
+		}
+	}
+	sort.Slice(chains, func(i, j int) bool { return chains[i].name < chains[j].name })
+	csb.WriteString("/-- chain name → external address class (`RegisterExternalAddress` calls) -/\ndef chains : List (String × AddrKind) := [\n")
+	var fchains []map[string]string
+	for i, ch := range chains {
+		sep := ","
+		if i == len(chains)-1 {
+			sep = ""
+		}
+		fmt.Fprintf(&csb, "  (%s, .%s)%s  -- %s\n", leanStr(ch.name), ch.kind, sep, ch.where)
+		fchains = append(fchains, map[string]string{"name": ch.name, "kind": ch.kind})
+	}
+	csb.WriteString("]\n\n")
+	classOnly := c.c03ClassOnly()
+	c.facts["C03.classOnlyParams"] = classOnly
 	var sb strings.Builder
-	sb.WriteString("import FxVerif.Model.C03Go\n\n-- the generated `path` / `validGen` of each claim type live in the namespace of the model's claim record (so `c.path` resolves)\nnamespace FxVerif.Model.C03\n\n")
+	sb.WriteString("import FxVerif.Model.C03Prog\n\nnamespace FxVerif.Gen.C03\nopen FxVerif.Model.C03\n\n" + csb.String() + "end FxVerif.Gen.C03\n\n-- the generated `path` / `validGen` / `handlerView` of each claim type live in the namespace of the model's claim record (so `c.path` resolves)\nnamespace FxVerif.Model.C03\n\n")
 	var names []string
 	factClaims := map[string]any{}
+	viewFacts := map[string]any{}
+	viewFieldFacts := map[string]any{}
 	for _, cl := range claims {
 		names = append(names, leanStr(cl.Name))
 		fmt.Fprintf(&sb, "/-! ### %s  (%s)\n  format %s -/\n\n", cl.Name, cl.Where, strings.ReplaceAll(leanStr(cl.Format), "-/", "- /"))
@@ -1406,6 +1480,14 @@ func extractC03(c *ctxT) {
 			fmt.Fprintf(&sb, "  %s\n", s)
 		}
 		fmt.Fprintf(&sb, "-/\ndef %s.readFields : List String := %s\n\n", cl.Name, leanList(rd))
+		ftv := map[string]string{}
+		for _, f := range cl.Fields {
+			ftv[f[0]] = f[1]
+		}
+		view := c.c03HandlerView(cl.Name, ftv, classOnly)
+		sb.WriteString(c03ViewLean(cl.Name, view))
+		viewFacts[cl.Name] = view
+		viewFieldFacts[cl.Name] = c03ViewFields(view)
 
 		var fsegs []map[string]any
 		for _, s := range cl.Segs {
@@ -1494,76 +1576,13 @@ func extractC03(c *ctxT) {
 	sb.WriteString("]\n\n")
 	c.facts["C03.attestTrySites"] = fsites
 
-	// chain table
-	type chainT struct{ name, kind, where string }
-	var chains []chainT
-	keyFiles, _ := filepath.Glob(filepath.Join(c.repo, "x", "*", "types"))
-	sort.Strings(keyFiles)
-	for _, dir := range keyFiles {
-		rel, _ := filepath.Rel(c.repo, dir)
-		p := c.pkg(rel)
-		consts := map[string]string{}
-		for _, fn := range sortedKeys(p) {
-			for _, d := range p[fn].Decls {
-				gd, ok := d.(*ast.GenDecl)
-				if !ok || gd.Tok != token.CONST {
-					continue
-				}
-				for _, sp := range gd.Specs {
-					vs := sp.(*ast.ValueSpec)
-					for i, n := range vs.Names {
-						if i < len(vs.Values) {
-							if bl, ok := vs.Values[i].(*ast.BasicLit); ok && bl.Kind == token.STRING {
-								consts[n.Name], _ = strconv.Unquote(bl.Value)
-							}
-						}
-					}
-				}
-			}
-		}
-		for _, fn := range sortedKeys(p) {
-			ast.Inspect(p[fn], func(n ast.Node) bool {
-				ce, ok := n.(*ast.CallExpr)
-				if !ok || len(ce.Args) != 2 {
-					return true
-				}
-				f := c.src(ce.Fun)
-				if f != "crosschaintypes.RegisterExternalAddress" && f != "RegisterExternalAddress" {
-					return true
-				}
-				name := c.src(ce.Args[0])
-				if v, ok := consts[name]; ok {
-					name = v
-				} else if bl, ok := ce.Args[0].(*ast.BasicLit); ok {
-					name, _ = strconv.Unquote(bl.Value)
-				} else {
-					return true // the declaration of RegisterExternalAddress itself, or a non-constant name
-				}
-				kind := "other"
-				switch c.src(ce.Args[1]) {
-				case "crosschaintypes.EthereumAddress{}", "EthereumAddress{}":
-					kind = "eth"
-				case "tronAddress{}":
-					kind = "tron"
-				}
-				chains = append(chains, chainT{name, kind, c.pos(ce)})
-				return true
-			})
-		}
-	}
-	sort.Slice(chains, func(i, j int) bool { return chains[i].name < chains[j].name })
-	sb.WriteString("/-- chain name → external address class (`RegisterExternalAddress` calls) -/\ndef chains : List (String × AddrKind) := [\n")
-	var fchains []map[string]string
-	for i, ch := range chains {
-		sep := ","
-		if i == len(chains)-1 {
-			sep = ""
-		}
-		fmt.Fprintf(&sb, "  (%s, .%s)%s  -- %s\n", leanStr(ch.name), ch.kind, sep, ch.where)
-		fchains = append(fchains, map[string]string{"name": ch.name, "kind": ch.kind})
-	}
-	sb.WriteString("]\n\nend FxVerif.Gen.C03\n")
+	sb.WriteString(c.c03KeyLayoutLean())
+	sb.WriteString(c.c03DispatchLean())
+	sb.WriteString(c.c03ProgLean())
+	sb.WriteString("end FxVerif.Gen.C03\n")
 	c.write("C03.lean", sb.String())
 	c.facts["C03.claims"] = factClaims
+	c.facts["C03.handlerView"] = viewFacts
+	c.facts["C03.viewFields"] = viewFieldFacts
 	c.facts["C03.chains"] = fchains
 }
